@@ -59,7 +59,7 @@ macro "wat_exec" : tactic => `(tactic|
     step_eq, step_ne, step_eqz, step_drop, step_unreachable, step_ret, step_if, step_block, call_enabled, call_alignment8,
     b2i_true_ne, wrap32_small, divS_pos, remS_pos, Option.map_some, Option.map_none, gl_cap, gl_base,
     List.take, List.reverse_cons, List.reverse_nil, List.nil_append, List.replicate, List.append_nil, List.getD_cons_zero,
-    List.cons_append, ite_true_nr, ite_false_nr, if_pos, if_neg, ne_eq, not_true_eq_false, not_false_eq_true,
+    List.cons_append, List.set_cons_zero, ite_true_nr, ite_false_nr, if_pos, if_neg, ne_eq, not_true_eq_false, not_false_eq_true,
     Int.natCast_eq_zero])
 
 /-- the regenerated `$heap_free_list.ptr_and_fixed_size` returns the head of the list the model's
@@ -71,8 +71,14 @@ theorem gen_ptr_and_fixed_size (c : Config) (f : Nat) (n : Nat) (hn : n ≤ 1073
   rw [callFuel_run funcs _ (f + 39) "heap_free_list.ptr_and_fixed_size" f_heap_free_list_ptr_and_fixed_size _ find_ptr (by simp [f_heap_free_list_ptr_and_fixed_size])]
   simp only [f_heap_free_list_ptr_and_fixed_size]
   by_cases hc : c.cap = 0
-  · wat_exec
-    simp [callRet, ptrAndFixedSize, hc, align8]
+  · by_cases hz : n = 0
+    · subst hz
+      wat_exec
+      simp [callRet, ptrAndFixedSize, hc, align8]
+    · have hnz : ¬ ((n : Int) + 7) / 8 * 8 = 0 := by omega
+      have hnz' : ¬ (n + 7) / 8 * 8 = 0 := by omega
+      wat_exec
+      simp [callRet, ptrAndFixedSize, hc, align8, hnz'] <;> omega
   · by_cases h80 : n > 80
     · by_cases h128 : n ≤ 128
       · wat_exec
